@@ -155,7 +155,7 @@ CLAIMS['C04'] = {
              ' Theorems tree_stats_total / fast_total_exact: the program tree_stats() never panics, reads only, and its free total plus the frames hidden by '
              'Offline equals the exact total that stats() reports - fast = exact - offline as program outputs, in every invariant state (partition argument over '
              'the slot ranges). Theorem validate_passes: all assertions of validate() hold (it runs to the end without panic, reading only) in every invariant state '
-             'without offline trees. Theorems stats_at_frame_exact / is_free_exact: the per-frame query reports one free frame exactly if the frame is not allocated and is_free(frame, order) answers exactly whether every frame of the aligned in-range block is free, for every order 0..TREE_ORDER (counter shortcuts, single-row mask test, whole-row loop, table-entry loop), reading only.' + PART + 'the end-of-interleaving statement for the tree counters is carried by '
+             'without offline trees. Theorems stats_at_frame_exact / is_free_exact: the per-frame query reports one free frame exactly if the frame is not allocated and is_free(frame, order) answers exactly whether every frame of the aligned in-range block is free, for every order 0..TREE_ORDER (counter shortcuts, single-row mask test, whole-row loop, table-entry loop), reading only. Theorems conc_quiescent_upper_invariant / conc_quiescent_fast_total / conc_quiescent_validate_passes: from any state satisfying the upper invariant, ANY number of threads running ANY lists of public calls (get with any request on every path, put of held blocks at their allocation order, drain) under ANY schedule: whenever all calls have returned the sequential upper invariant holds again (tree counter + reservations + hidden = free frames of every tree, reserved entries exactly those named by a slot, lower counters exact), so tree_stats + hidden = stats and validate() passes at every such quiescent end (upper ghost state per thread, legal transitions of tree entries and slots, invariance of the free-or-held count under every lower step; DESIGN 11.10).' + PART + 'interleavings in which a call trapped, partial frees of huge allocations (K1) and change_tree under interleavings are carried by '
              'the accounting oracle of the sequential and concurrent correspondence.'),
     'note': TB + ' Upper-level theorems hold for configurations satisfying CfgOk (class ids < 8, ordered policy, tree size < 2^19: every configuration of the repository; derived from elementary checks by CfgOk.of_checks); they depend on the C23 theorem (bv_decide axioms) through the lower search.',
     'technique': 'Lean 4 theorems from the lower and upper invariants + accounting oracle in the sequential differential and at quiescent ends of co-simulated interleavings',
